@@ -144,7 +144,7 @@ class C15(Engine):
 		cases = []
 		for which in (0, 1):
 			pool = pools.fixed_pool(which)
-			leaf = pool['modules'][-1]
+			leaf = pools.core(pool)[-1]
 			run = {'op': 'run'}
 			cases.append({'pool': pool, 'ops': [run, run], 'kind': 'canonical'})
 			cases.append({'pool': pool, 'ops': [run, {'op': 'edit', 'm': leaf, 'v': 1, 'dt': 10**9}, run, run], 'kind': 'canonical'})
